@@ -32,86 +32,45 @@ func (r CharRecipe) entropyWithRequired() float32 {
 }
 
 func (r CharRecipe) n() *big.Int {
-	allowed := set.NewSet()
-	allowed.Add(r.allowedSet)
-	required := set.NewSet()
+	alphabet := set.NewSet()
+	if r.allowedSet != nil {
+		alphabet = alphabet.Union(r.allowedSet)
+	}
+	required := []set.Set{}
 	for _, req := range r.requiredSets {
-		required.Add(req.s)
+		if req.size() == 0 {
+			// A required set with no members left (see Exclude) is not
+			// enforced by requireFilter, so it does not constrain the count
+			continue
+		}
+		alphabet = alphabet.Union(req.s)
+		required = append(required, req.s)
 	}
 
-	return n(allowed, required, r.Length)
+	return n(alphabet, required, r.Length)
 }
 
-// n is the number of possible passwords that can be generated.
+// n is the number of possible passwords that can be generated: the number
+// of strings of the given length over alphabet that contain at least one
+// member of each of the required sets. The required sets may overlap.
 // Unfortunately, we can't take the log until the very end, so we will
 // be dealing with some very large numbers.
-func n(allowed set.Set, required set.Set, length int) *big.Int {
-	// totalCount is the total number of permutations possible when a
-	// password of length n is generated from the set R, which is the
-	// union of all sets in the password recipe.
-	R := unionAll(allowed.Union(required))
-	totalCount := &big.Int{}
-	totalCount.Exp(toBigInt(R.Cardinality()), toBigInt(length), nil) // #nosec G105
-
-	// Each of these sets of sets represents a password recipe that we
-	// will reject and thus must subtract from our total count.
-	// We want to reject all subsets of the set of required sets except
-	// the set of required sets itself.
-	// For example, if L and D are required, rejectedSubsets
-	// will contain {L} and {D} and will not contain {L, D}.
-	// Optional sets are not part of this at all because they will
-	// simply be tacked on at the end.
-	powerSet := required.PowerSet()
-	rejectedSubsets := set.NewSet()
-	for el := range powerSet.Iter() {
-		elSet, ok := el.(set.Set)
-		if ok && !required.Equal(elSet) {
-			rejectedSubsets.Add(elSet)
-		}
+func n(alphabet set.Set, required []set.Set, length int) *big.Int {
+	if len(required) == 0 {
+		count := &big.Int{}
+		return count.Exp(toBigInt(alphabet.Cardinality()), toBigInt(length), nil) // #nosec G105
 	}
 
-	// When requiredSets is {{}} (it is a set containing only the empty set),
-	// powerSet(requiredSets) will also be {{}};
-	// thus, rejectedSubsets will be empty, the reducing
-	// function below will not run, and rejectedCount will be 0,
-	// terminating the recursion.
-
-	rejectedCount := sumAll(
-		rejectedSubsets,
-		func(subset set.Set) *big.Int {
-			return n(allowed, subset, length)
-		},
-	)
-
-	return totalCount.Sub(totalCount, rejectedCount)
+	// Of the strings that meet the remaining requirements, those that
+	// also contain a member of required[0] are all of them except the ones
+	// drawn entirely from outside of required[0].
+	count := n(alphabet, required[1:], length)
+	avoiding := n(alphabet.Difference(required[0]), required[1:], length)
+	return count.Sub(count, avoiding)
 }
 
 func toBigInt(i int) *big.Int {
 	return big.NewInt(int64(i))
-}
-
-// Mimic the mathematical sum operator
-func sumAll(s set.Set, transform func(s set.Set) *big.Int) *big.Int {
-	sum := &big.Int{}
-	for el := range s.Iter() {
-		elSet, ok := el.(set.Set)
-		if ok {
-			sum.Add(sum, transform(elSet))
-		}
-	}
-	return sum
-}
-
-// Mimic the mathematical big union (bigcup) operator
-func unionAll(elements set.Set) set.Set {
-	combined := set.NewSet()
-	for el := range elements.Iter() {
-		elSet, ok := el.(set.Set)
-		if ok {
-			combined = combined.Union(elSet)
-		}
-	}
-	return combined
 }
 
 // SuccessProbability returns the chances of meeting all of the Require-ments
